@@ -636,7 +636,7 @@ def run_seed(seed, ctx):
                                              tuple(c.lazy for c in sim.calls))).encode()).hexdigest()[:16]],
         "stats": st, "sim_seconds": sim.now, "events_sha": tape.event_digest(), "violations": [],
     }
-    if seed % 499 == 0:
+    if seed % 499 == 0 or ctx.get("want_sample"):
         res["sample"] = {"seed": seed, "scenario": sc, "arrival_orders": [list(c.delivery) for c in sim.calls]}
     if viols:
         vclass = viols[0]["class"]
